@@ -6,7 +6,7 @@
 //                                      mode bit 0: a fresh String per read() instead of one reused String
 //   tok 0 0 0 0 x<bytes>               one argv element, taken literally (cut at the first NUL byte); at most 12 are used
 //
-// Pool: flags a b c (short only), required-argument options o/"out" and p/"path", long-only flag "verbose" (256),
+// Pool: flags a b c (short only), required-argument options o/"out" and p/"path", long-only flag "verbose" (256), long-only "verb" (258) and "pa" (259, takes a value) whose names are prefixes of earlier entries,
 // long-only optional-argument option "level" (257).  argv[0] is "prog".  The argv array, every argv string and the
 // option table are exactly sized heap blocks, so any read outside them is an ASan report.
 #define PBT_MAIN
@@ -34,7 +34,7 @@ std::string pickv(Rng& r, bool nonEmpty = false) { for (;;) { std::string v = VA
 }
 
 void pbt_generate(Rng& r, int size, Case& c) {
-  long mask = r.chance(75) ? 127 : (long)r.below(128);
+  long mask = r.chance(75) ? FULLMASK : (long)r.below((uint64_t)FULLMASK + 1);
   c.add("table", mask, (long)r.below(2));
   size_t want = (size_t)r.below((uint64_t)std::min(8, size) + 1);
   std::vector<std::string> toks;
@@ -57,9 +57,10 @@ void pbt_generate(Rng& r, int size, Case& c) {
       }
       case 1: toks.push_back(std::string(r.chance(50) ? "-o" : "-p") + pickv(r, true)); break;
       case 2: toks.push_back(r.chance(50) ? "-o" : "-p"); if (!r.chance(15)) toks.push_back(pickv(r)); break;
-      case 3: toks.push_back("--verbose"); break;
+      case 3: if ((mask & 128) && r.chance(35)) toks.push_back("--verb"); else toks.push_back("--verbose"); break;
       case 4: toks.push_back(std::string(r.chance(50) ? "--out=" : "--path=") + pickv(r)); break;
-      case 5: toks.push_back(r.chance(50) ? "--out" : "--path"); if (!r.chance(15)) toks.push_back(pickv(r)); break;
+      case 5: if ((mask & 256) && r.chance(25)) { if (r.chance(50)) toks.push_back("--pa=" + pickv(r)); else { toks.push_back("--pa"); if (!r.chance(15)) toks.push_back(pickv(r)); } break; }
+              toks.push_back(r.chance(50) ? "--out" : "--path"); if (!r.chance(15)) toks.push_back(pickv(r)); break;
       case 6: { int h = (int)r.below(3); if (h == 0) toks.push_back("--level"); else if (h == 1) toks.push_back("--level=" + pickv(r)); else { toks.push_back("--level"); toks.push_back(pickv(r)); } break; }
       case 7: { std::string t = std::string("--") + UNKNOWN_LONG[r.below(sizeof UNKNOWN_LONG / sizeof *UNKNOWN_LONG)]; if (r.chance(30)) t += "=" + pickv(r); toks.push_back(t); break; }
       case 8: toks.push_back("--"); break;
@@ -77,11 +78,11 @@ bool pbt_nontrivial(const Ctx& ctx) { return ctx.has("cluster_followed") || ctx.
 
 // ---------------------------------------------------------------- interpreter
 void pbt_run(const Case& c, Ctx& ctx) {
-  long mask = 127, mode = 0;
+  long mask = FULLMASK, mode = 0;
   std::vector<std::string> argv;
   argv.push_back("prog");
   for (const Op& op : c.ops) {
-    if (op.name == "table") { mask = op.a[0] & 127; mode = op.a[1]; if (mask == 0) mask = 127; }
+    if (op.name == "table") { mask = op.a[0] & FULLMASK; mode = op.a[1]; if (mask == 0) mask = FULLMASK; }
     else if (op.name == "tok") {
       if (argv.size() > MAXTOK) { ctx.count("skipped"); continue; }
       argv.push_back(std::string(op.data.c_str()));  // cut at the first NUL: argv elements are C strings
@@ -90,7 +91,7 @@ void pbt_run(const Case& c, Ctx& ctx) {
   }
   std::vector<PoolOpt> tbl;
   for (int k = 0; k < NPOOL; ++k) if (mask & (1 << k)) tbl.push_back(POOL[k]);
-  if (mask != 127) ctx.label("partial_table");
+  if (mask != FULLMASK) ctx.label("partial_table");
 
   // known findings: remove exactly the triggering elements (and repeat, a removal can change how later elements parse)
   for (;;) {
